@@ -53,6 +53,10 @@ pub struct Segment {
     pub true_arrival: Vec<u64>,
     /// Make device `.0`'s 32 bit local clock wrap `.1` ns after the latching frame enters the segment.
     pub wrap_after_latch: Option<(usize, u64)>,
+    /// "Arbitrary device answers": when set, the bytes of a logical read/write answer that lie in
+    /// an output (write-only FMMU) area come back holding noise derived from this value instead of
+    /// what was sent. Devices consume outputs, nothing obliges the returned frame to still carry them.
+    pub lrw_output_area_noise: Option<u64>,
 }
 
 impl Segment {
@@ -76,6 +80,7 @@ impl Segment {
             unexpected: Vec::new(),
             true_arrival: vec![0; n],
             wrap_after_latch: None,
+            lrw_output_area_noise: None,
         };
         s.apply_topology_ports();
         s
@@ -170,6 +175,23 @@ impl Segment {
             let sent = d.data.clone();
             self.datagrams += 1;
             self.process_datagram(d, now);
+            if let (Some(noise), true) = (self.lrw_output_area_noise, d.cmd == wire::CMD_LRW) {
+                let base = d.logical() as u64;
+                for dev in self.devices.iter() {
+                    for k in 0..dev.fmmu_count as usize {
+                        let f = dev.fmmu(k);
+                        if !f.enabled || !f.write || f.read {
+                            continue;
+                        }
+                        for j in 0..d.data.len() {
+                            let a = base + j as u64;
+                            if a >= f.logical as u64 && a < f.logical as u64 + f.len as u64 {
+                                d.data[j] = crate::rng::mix(&[noise, a]) as u8;
+                            }
+                        }
+                    }
+                }
+            }
             if self.record {
                 recs.push(DatagramRec {
                     cmd: d.cmd,
